@@ -14,3 +14,5 @@ import Lace.Proofs.AsmLex
 import Lace.Proofs.AsmParse
 import Lace.Props.C05
 import Lace.Props.C19
+import Lace.Proofs.AsmFlag
+import Lace.Props.C18Asm
